@@ -156,3 +156,140 @@ def _metrics(ix, driver, i, op, res):
 
 
 hook_metrics = wrap(_metrics)
+
+
+# ------------------------------------------------------------------- webentity-level queries
+def _webentities(ix, salt):
+    """{id: [prefixes]} as the index reports them, prefix lists deterministically shuffled."""
+    import random
+    t = ix.t
+    we = {}
+    for node, lru in t.webentity_prefix_iter():
+        we.setdefault(node.webentity(), []).append(lru)
+    out = []
+    for wid in sorted(we):
+        ps = sorted(we[wid])
+        random.Random(salt * 7919 + wid).shuffle(ps)
+        out.append((wid, ps))
+    return out
+
+
+def _pres(ix):
+    t = ix.t
+    rows = []
+    for _, l in t.pages_iter():
+        w, e = guarded(lambda: t.retrieve_webentity(l))
+        rows.append({"l": l, "we": w or 0})
+    return rows
+
+
+def _wepages(ix, wes):
+    t = ix.t
+    rows = []
+    for wid, ps in wes:
+        pg, e1 = guarded(lambda: [{"l": p["lru"], "cr": bool(p["crawled"])} for p in t.get_webentity_pages(wid, ps)])
+        cp, e2 = guarded(lambda: [{"l": p["lru"], "cr": bool(p["crawled"])} for p in t.get_webentity_crawled_pages(wid, ps)])
+        rows.append({"id": wid, "ps": ps, "pages": pg or [], "cpages": cp or [], "exc": e1 + e2})
+    return rows
+
+
+def _c05(ix, driver, i, op, res):
+    wes, e = guarded(lambda: _webentities(ix, i))
+    return {"pres": _pres(ix), "wp": _wepages(ix, wes or [])}
+
+
+hook_wepages = wrap(_c05)
+
+
+def _net(g, tallies):
+    links, tal = [], []
+    for s, cnt in g.items():
+        c = u = 0
+        for k, w in cnt.items():
+            if k == "pages_crawled":
+                c = w
+            elif k == "pages_uncrawled":
+                u = w
+            else:
+                links.append({"s": s or 0, "t": k or 0, "w": w})
+        if tallies:
+            tal.append({"id": s or 0, "c": c, "u": u})
+    return {"links": links, "tal": tal}
+
+
+def _c07(ix, driver, i, op, res):
+    t = ix.t
+    nets = []
+    for slow in (False, True):
+        for out in (True, False):
+            for auto in (False, True):
+                fn = t.get_webentities_links_slow if slow else t.get_webentities_links
+                g, e = guarded(lambda: fn(out=out, include_auto=auto))
+                n = _net(g, not slow) if g is not None else {"links": [], "tal": []}
+                n.update({"slow": slow, "out": out, "auto": auto, "exc": e})
+                nets.append(n)
+    return {"pres": _pres(ix), "nets": nets}
+
+
+hook_network = wrap(_c07)
+
+COMBOS = [(a, b, c) for a in (False, True) for b in (False, True) for c in (False, True) if a or b or c]
+
+
+def _c08(ix, driver, i, op, res):
+    t = ix.t
+    wes, _ = guarded(lambda: _webentities(ix, i))
+    wes = wes or []
+    pl = []
+    for wid, ps in wes:
+        for inb, inter, outb in COMBOS:
+            r, e = guarded(lambda: [{"s": s, "t": tg, "w": w} for s, tg, w in
+                                    t.get_webentity_pagelinks(wid, ps, include_inbound=inb,
+                                                              include_internal=inter, include_outbound=outb)])
+            pl.append({"id": wid, "inb": inb, "int": inter, "out": outb, "links": r or [], "exc": e})
+    cit = []
+    for wid, ps in wes:
+        o, e1 = guarded(lambda: sorted((x or 0) for x in t.get_webentity_outlinks(wid, ps)))
+        n, e2 = guarded(lambda: sorted((x or 0) for x in t.get_webentity_inlinks(wid, ps)))
+        od, e3 = guarded(lambda: t.get_webentity_outdegree(wid, ps))
+        idg, e4 = guarded(lambda: t.get_webentity_indegree(wid, ps))
+        dg, e5 = guarded(lambda: t.get_webentity_degree(wid, ps))
+        cit.append({"id": wid, "cited": o or [], "citing": n or [], "od": od if od is not None else -1,
+                    "idg": idg if idg is not None else -1, "dg": dg if dg is not None else -1,
+                    "exc": e1 + e2 + e3 + e4 + e5})
+    return {"pres": _pres(ix), "wp": _wepages(ix, wes), "pl": pl, "cit": cit}
+
+
+hook_welinks = wrap(_c08)
+
+
+def _c13(ix, driver, i, op, res):
+    t = ix.t
+    wes, _ = guarded(lambda: _webentities(ix, i))
+    rows = []
+    for wid, ps in (wes or []):
+        pa, e1 = guarded(lambda: sorted(t.get_webentity_parent_webentities(wid, ps)))
+        ch, e2 = guarded(lambda: sorted(t.get_webentity_child_webentities(wid, ps)))
+        rows.append({"id": wid, "parents": pa or [], "children": ch or [], "exc": e1 + e2})
+    return {"hier": rows}
+
+
+hook_hierarchy = wrap(_c13)
+
+
+def _c20(ix, driver, i, op, res):
+    t = ix.t
+    wes, _ = guarded(lambda: _webentities(ix, i))
+    wes = wes or []
+    rows = []
+    for wid, ps in wes:
+        for k in (1, 2, 3, 10):
+            for depth in (-1, 0, 1, 2):
+                r, e = guarded(lambda: [{"l": p["lru"], "n": p["indegree"]} for p in
+                                        t.get_webentity_most_linked_pages(wid, ps, pages_count=k,
+                                                                          max_depth=None if depth < 0 else depth)])
+                rows.append({"id": wid, "k": k, "depth": depth, "top": r or [], "exc": e})
+    return {"wp": _wepages(ix, wes), "top": rows}
+
+
+hook_toplinked = wrap(_c20)
